@@ -155,3 +155,21 @@ def run(chk):
                      "the exporter formula presupposes that the suite's hash can be looked up: as coded that holds for "
                      "built-in suites only (export_as_coded); associations on a user-supplied cipher suite are outside "
                      "the negotiation model and are judged by the monitors alone"])
+
+
+def replay(chk, path):
+    """bin/check C01 --replay <file>: rerun the one association (option sets, hook, network script) of a finding"""
+    c, body = c11lib.replay_case(chk, path, ["c11", "c11x", "c01"])
+    if c is not None:
+        sc = c11lib.slim_case(c)
+        print("replayed: client %s / server %s" % (json.dumps(sc["client"]), json.dumps(sc["server"])))
+        hits = []
+        if c11lib.both_built(c) and c11lib.both_ok(c):
+            hits = [(SITES[m], m, t) for m, t in c11lib.monitor_hook(c)] + \
+                   [(SITES.get(m, SITE), "disagreement:" + m, "both sides report success but " + t)
+                    for m, t in c11lib.monitor_agreement(c)]
+        for site, mon, text in hits:
+            chk.finding(site, {"monitor": mon}, text, {"how": "replay of " + path, "case": sc})
+        if not hits:
+            print("replay: no monitor fires on this tree (stored signature %s)" % json.dumps(body.get("signature")))
+    chk.finish(level="proof", rule="replay of one stored association")
